@@ -624,13 +624,13 @@ func arm(m *module) []string {
 	return out
 }
 
-func TestFlowHandler(t *testing.T)      { runHandler(t, "flow", hx.N{Quick: 800, Thorough: 5000}) }
-func TestIsolationHandler(t *testing.T) { runHandler(t, "isolation", hx.N{Quick: 800, Thorough: 5000}) }
-func TestSystemHandler(t *testing.T)    { runHandler(t, "system", hx.N{Quick: 800, Thorough: 5000}) }
+func TestFlowHandler(t *testing.T)      { runHandler(t, "flow", hx.N{Quick: 4000, Thorough: 30000}) }
+func TestIsolationHandler(t *testing.T) { runHandler(t, "isolation", hx.N{Quick: 4000, Thorough: 30000}) }
+func TestSystemHandler(t *testing.T)    { runHandler(t, "system", hx.N{Quick: 4000, Thorough: 30000}) }
 func TestCircuitBreakerHandler(t *testing.T) {
-	runHandler(t, "circuitbreaker", hx.N{Quick: 800, Thorough: 5000})
+	runHandler(t, "circuitbreaker", hx.N{Quick: 4000, Thorough: 30000})
 }
-func TestHotspotHandler(t *testing.T) { runHandler(t, "hotspot", hx.N{Quick: 800, Thorough: 5000}) }
+func TestHotspotHandler(t *testing.T) { runHandler(t, "hotspot", hx.N{Quick: 4000, Thorough: 30000}) }
 
 // ---- fuzz invariant for arbitrary bytes (native fuzzing in the thorough tier; seed corpus in quick) ----
 
@@ -778,7 +778,7 @@ func playFile(events []fileEvent, m *module, lists [][]any) (string, bool) {
 }
 
 func TestFileDatasource(t *testing.T) {
-	hx.Check(t, hx.N{Quick: 12, Thorough: 30}, func(t *rapid.T, c *hx.Case) {
+	hx.Check(t, hx.N{Quick: 60, Thorough: 180}, func(t *rapid.T, c *hx.Case) {
 		hx.Install()
 		util.SetClock(util.NewRealClock()) // the watcher loop sleeps and retries on the library clock
 		defer util.SetClock(hx.C)
